@@ -7,6 +7,7 @@ import (
 	"math"
 	"strings"
 	"time"
+	"unicode/utf8"
 
 	cmtproto "github.com/cometbft/cometbft/proto/tendermint/types"
 
@@ -200,5 +201,41 @@ func runTags(t tally) {
 		}
 		seen[tg.got] = tg.name
 		t.Saw("tag-constant")
+	}
+}
+
+// runSignalIDs: the real StringToBytes32 on signal ids around the 32-byte limit (ASCII and multi-byte
+// UTF-8): an id of at most 32 BYTES is carried right-aligned and decodes back; a longer one is refused.
+func runSignalIDs(t tally) {
+	cfg := map[string]any{"section": "signal-id"}
+	legalMB, longMB := multiByteIDs()
+	ids := []string{"", "a", "CS:BTC-USD", strings.Repeat("z", 31), z32, strings.Repeat("z", 33), strings.Repeat("z", 64), ff32, ff32 + "\xff", "\x01"}
+	ids = append(append(ids, legalMB...), longMB...)
+	seen := map[[32]byte]string{}
+	for _, id := range ids {
+		t.Eval()
+		input := fmt.Sprintf("StringToBytes32(%q) [%d bytes, %d characters]", id, len(id), utf8.RuneCountInString(id))
+		path := []string{"section=signal-id", input}
+		got, err := feedstypes.StringToBytes32(id)
+		want, fits := refSignalBytes32(id)
+		t.Nontrivial(input)
+		switch {
+		case !fits && err == nil:
+			t.Violate(cfg, path, "signal-id:longer-than-32-bytes-not-refused", fmt.Sprintf("%s = %x (decodes to %q): an id that does not fit must be refused, not truncated", input, got, decodeSignalID(got)))
+		case !fits:
+			t.Saw("signal-id:oversize-refused")
+		case err != nil:
+			t.Violate(cfg, path, "signal-id:refused-although-it-fits", fmt.Sprintf("%s: %v", input, err))
+		case got != want || decodeSignalID(got) != id:
+			t.Violate(cfg, path, "signal-id:bytes32-does-not-decode-back", fmt.Sprintf("%s = %x, decodes to %q; expected %x", input, got, decodeSignalID(got), want))
+		default:
+			t.Saw("signal-id:round-trip")
+		}
+		if err == nil {
+			if prev, ok := seen[got]; ok && prev != id {
+				t.Violate(cfg, path, "signal-id:two-ids-one-bytes32", fmt.Sprintf("%q and %q both encode to %x", prev, id, got))
+			}
+			seen[got] = id
+		}
 	}
 }
